@@ -216,7 +216,7 @@ def line_load(h, interp="Quaternion", nel=1, seed=0):
 def cases(tier, seed):
     T = 120 if tier == "quick" else 900
     cs = []
-    pairings = ("PM-PM", "PM-RB", "F-RB") if tier == "quick" else ("PM-PM", "PM-RB", "RB-PM", "F-RB", "RB-F", "RB-RB")
+    pairings = ("PM-PM", "PM-RB", "RB-PM", "F-RB") if tier == "quick" else ("PM-PM", "PM-RB", "RB-PM", "F-RB", "RB-F", "RB-RB")
     for p in pairings:
         for law, form in (("Spring", "force"), ("Spring", "compliance"), ("KelvinVoigt", "force"), ("KelvinVoigt", "compliance"), ("Maxwell", "force")):
             cs.append(Case(f"tpi/{p}/{law}/{form}", tpi_energy, dict(pairing=p, law=law, form=form, seed=seed), timeout=T, hard=T * 8))
